@@ -2,6 +2,7 @@ package c05
 
 import (
 	"math"
+	"strconv"
 
 	"pgregory.net/rapid"
 
@@ -141,7 +142,17 @@ var intCorners = []float64{0, 1, -1, 2, 7, 31, 32, 33, 127, 128, -128, -129, 255
 	9007199254740991, 9007199254740992, -9007199254740992, 9007199254740994, 1152921504606846976, -1152921504606846976, 1152921504606847232,
 	4611686018427387904, 9223372036854774784, -9223372036854775808, 9223372036854775808, 9223372036854777856, 13835058055282163712, 18446744073709549568}
 
+// integer literals beyond 2^53 that are not doubles: ES5 7.8.3 rounds the literal's value; otto keeps an int64
+var inexactIntLits = []string{"9007199254740993", "9007199254740995", "18014398509481985", "1152921504606846977", "123456789012345678", "9223372036854775807"}
+
 func genNumber(t *rapid.T) Operand {
+	if rapid.IntRange(0, 24).Draw(t, "inexactlit") == 24 {
+		lit := rapid.SampledFrom(inexactIntLits).Draw(t, "lit")
+		x, _ := strconv.ParseFloat(lit, 64)
+		o := numOp(x, "dec")
+		o.Lit = lit
+		return o
+	}
 	var x float64
 	if rapid.IntRange(0, 3).Draw(t, "intcorner") == 3 {
 		x = rapid.SampledFrom(intCorners).Draw(t, "int")
@@ -225,4 +236,22 @@ func genObject(t *rapid.T) Operand {
 		o.Ref = "getter"
 	}
 	return o
+}
+
+// genBuiltinObject: a Boolean/Number/String wrapper or an array of primitives — objects whose
+// built-in valueOf/toString (15.6.4, 15.7.4, 15.5.4, 15.4.4.2) take part in ToPrimitive unlogged.
+func genBuiltinObject(t *rapid.T) Operand {
+	if rapid.Bool().Draw(t, "array") {
+		n := rapid.IntRange(0, 3).Draw(t, "nelems")
+		o := Operand{K: "arr"}
+		for i := 0; i < n; i++ {
+			o.Elems = append(o.Elems, *genRet(t))
+		}
+		return o
+	}
+	in := genRet(t)
+	if in.K == "undef" || in.K == "null" {
+		*in = numOp(0, "")
+	}
+	return Operand{K: "wrap", Inner: in}
 }
